@@ -25,13 +25,13 @@ M["M3_rename_fix_reverted"] = ("fastparquet/api.py", '''        files = {}
                 files[rg.columns[0].file_path] = (rgid, [rg])
 ''', "M")
 M["M4_single_pass_rename"] = ("fastparquet/api.py", '''            dst = join_path(basepath, parts, f'part.{rgid}.parquet.tmp')
-            self.fs.rename(src, dst)
+            rename(src, dst)
         # Give definitive names in a 2nd pass.
         for rgid, fname, rgs in renames:
             parts = partitions(fname)
             src = join_path(basepath, parts, f'part.{rgid}.parquet.tmp')
             dst_part''', '''            dst = join_path(basepath, parts, f'part.{rgid}.parquet')
-            self.fs.rename(src, dst)
+            rename(src, dst)
         # Give definitive names in a 2nd pass.
         for rgid, fname, rgs in renames:
             parts = partitions(fname)
@@ -81,4 +81,28 @@ M["M11_overwrite_selects_by_path_prefix"] = ("fastparquet/writer.py", '''    rgs
                 for val in partition_values_in_new]
     rgs_to_remove = filter(lambda rg : any(rg.columns[0].file_path.startswith(d) for d in new_dirs),
                            pf.row_groups)
+''', "M")
+M["M12_path_string_whole_floats_as_int"] = ("fastparquet/util.py", '''    if isinstance(o, pd.Timestamp):
+        return o.isoformat()
+    return str(o)
+''', '''    if isinstance(o, pd.Timestamp):
+        return o.isoformat()
+    if isinstance(o, float) and o.is_integer():
+        return str(int(o))
+    return str(o)
+''', "M")
+M["M13_overwrite_compares_astype_str"] = ("fastparquet/writer.py", '''    partition_values_in_new = {
+        '/'.join(path_string(val) for val in values)
+        for values in new_partitions.itertuples(index=False, name=None)}
+''', '''    partition_values_in_new = set(new_partitions.astype(str).agg('/'.join, axis=1))
+''', "M")
+M["M14_partition_names_from_paths_only"] = ("fastparquet/api.py", '''        return list(self.partition_meta)
+''', '''        return list(self.cats)
+''', "M")
+M["M15_emptied_dataset_written_drill_style"] = ("fastparquet/api.py", '''                        file_scheme=('hive' if self.file_scheme == 'empty'
+                                     else self.file_scheme),
+''', '''                        file_scheme=self.file_scheme,
+''', "M")
+M["M16_rename_needs_fs_object"] = ("fastparquet/api.py", '''        rename = self.fs.rename if hasattr(self, 'fs') else os.rename
+''', '''        rename = self.fs.rename
 ''', "M")
